@@ -231,10 +231,13 @@ func (c *Chunk) locate(line int) (*TraceRef, int) {
 			for l := line; l != 0; l = c.Tour.Parent[l] {
 				path = append([]M{c.Tour.Event[l]}, path...)
 			}
-			evs := append(initEvents(), path...)
-			for _, e := range evs[:3] {
+			root := []M{}
+			for _, e := range c.Tour.Root {
+				e = cloneEv(e)
 				annotate(c.T, e)
+				root = append(root, e)
 			}
+			evs := append(root, path...)
 			contents := map[string][]byte{}
 			for _, b := range c.Tour.Conc {
 				contents[c.T.Content(b)] = b
